@@ -1016,6 +1016,14 @@ impl<T: Transport, Env: UtpEnvironment> VirtualSocket<T, Env> {
         }
 
         if result.on_ack_result.acked_segments_count > 0 {
+            // An acknowledged sequence number was sent: an RTO may have rewound
+            // last_sent_seq_nr below segments that the peer had received all along, and
+            // the FIN is sent only right after last_sent_seq_nr.
+            let acked_up_to = self.user_tx_segments.snd_una() - 1;
+            if acked_up_to > self.last_sent_seq_nr {
+                self.last_sent_seq_nr = acked_up_to;
+            }
+
             // Cleanup user side of TX queue, remove the ACKed bytes from the front of it,
             // and notify the writer.
             {
